@@ -327,7 +327,7 @@ impl Property for C04 {
         vec![("any-node", 3), ("two-clients-on-primary", 1)]
     }
     fn budget(&self) -> (u64, u64) {
-        (4_000, 150_000)
+        (10_000, 300_000)
     }
     fn rule(&self) -> &'static str {
         "clusters of 2-3 real nodes formed through the real join/election protocol (booted 1.3 s apart), link latency 50 us or 50 us - 20 ms with jitter, 1-8 operations of {set,set-safe,remove,increment,create-db (3 strategies),create-user,set-permissions,snapshot} issued by administrator sessions at arbitrary nodes, either waiting for quiescence after each or back to back (then without set-safe), or from two concurrent clients on the primary; at quiescence the white-box dump (databases, strategy, per key value / removed-or-live / version, $connections ignored) of every node must equal the primary's. Runs whose cluster did not form with the oldest node as primary are discarded (setup_unstable; elections are C07's subject). Non-trivial: at least one operation was issued on a secondary or two clients overlapped. distinct = distinct (program, task-switch sequence)."
